@@ -4,12 +4,14 @@ use crate::Ctx;
 pub mod c01;
 pub mod c02;
 pub mod c04;
+pub mod c07;
 pub mod c08;
 pub mod c09;
 pub mod c10;
 pub mod c11;
 pub mod c13;
 pub mod c14;
+pub mod c15;
 pub mod c16;
 pub mod c18;
 
@@ -19,12 +21,14 @@ pub fn run(prop: &str, ctx: &Ctx, r: &mut Report) -> bool {
 		"C02" => c02::run_c02(ctx, r),
 		"C03" => c02::run_c03(ctx, r),
 		"C04" => c04::run(ctx, r),
+		"C07" => c07::run(ctx, r),
 		"C08" => c08::run(ctx, r),
 		"C09" => c09::run(ctx, r),
 		"C10" => c10::run(ctx, r),
 		"C11" => c11::run(ctx, r),
 		"C13" => c13::run(ctx, r),
 		"C14" => c14::run(ctx, r),
+		"C15" => c15::run(ctx, r),
 		"C16" => c16::run(ctx, r),
 		"C18" => c18::run(ctx, r),
 		_ => return false,
